@@ -81,7 +81,7 @@ func protoOf(s spec) string { return fmt.Sprintf("proto-%d.v%d", s.seed%7, s.see
 
 func compressedMode(s spec) bool { return s.traffic >= 2 }
 
-func newFlateWriter(w io.Writer) wsflate.Compressor { f, _ := flate.NewWriter(w, 5); return f }
+func newFlateWriter(w io.Writer) wsflate.Compressor   { f, _ := flate.NewWriter(w, 5); return f }
 func newFlateReader(r io.Reader) wsflate.Decompressor { return flate.NewReader(r) }
 
 var helper = wsflate.Helper{Compressor: newFlateWriter, Decompressor: newFlateReader}
@@ -261,8 +261,10 @@ func startHTTP() {
 	httpOnce.Do(func() {
 		httpCh = make(chan net.Conn)
 		srv := &http.Server{
-			ErrorLog:    log.New(io.Discard, "", 0),
-			ConnContext: func(ctx context.Context, c net.Conn) context.Context { return context.WithValue(ctx, key{}, c.(*tagged)) },
+			ErrorLog: log.New(io.Discard, "", 0),
+			ConnContext: func(ctx context.Context, c net.Conn) context.Context {
+				return context.WithValue(ctx, key{}, c.(*tagged))
+			},
 			Handler: http.HandlerFunc(func(w http.ResponseWriter, r *http.Request) {
 				tg := r.Context().Value(key{}).(*tagged)
 				defer close(tg.d)
@@ -343,7 +345,7 @@ func runSession(s spec) *transcript {
 		p := payloadOf(s, i)
 		op := []ws.OpCode{ws.OpText, ws.OpBinary}[i%2]
 		if i%2 == 1 {
-			if err = wsutil.WriteClientMessage(conn, ws.OpPing, []byte(fmt.Sprintf("ping-%d-%d", s.id, i))); err != nil {
+			if err = wsutil.WriteClientMessage(conn, ws.OpPing, pingOf(s, i)); err != nil {
 				break
 			}
 		}
@@ -414,6 +416,20 @@ func runSession(s spec) *transcript {
 		var gop ws.OpCode
 		switch s.traffic {
 		case 0, 1:
+			if s.traffic == 0 && i%2 == 1 {
+				// a ping went out before this message: read frame by frame so that the pong
+				// payload gets into the transcript (the echo of mode 0 is a single frame)
+				var f ws.Frame
+				for {
+					f, err = ws.ReadFrame(conn)
+					if err != nil || !f.Header.OpCode.IsControl() {
+						break
+					}
+					t.add("C control op=%x %s", f.Header.OpCode, f.Payload)
+				}
+				got, gop = f.Payload, f.Header.OpCode
+				break
+			}
 			got, gop, err = wsutil.ReadServerData(conn)
 		case 2:
 			var f ws.Frame
@@ -466,7 +482,7 @@ func runSession(s spec) *transcript {
 		return t
 	}
 	// closing handshake
-	wsutil.WriteClientMessage(conn, ws.OpClose, ws.NewCloseFrameBody(ws.StatusNormalClosure, fmt.Sprintf("bye-%d", s.id)))
+	wsutil.WriteClientMessage(conn, ws.OpClose, ws.NewCloseFrameBody(ws.StatusNormalClosure, reasonOf(s)))
 	f, err := ws.ReadFrame(conn)
 	for err == nil && f.Header.OpCode != ws.OpClose {
 		f, err = ws.ReadFrame(conn)
@@ -483,6 +499,29 @@ func runSession(s spec) *transcript {
 }
 
 func keyless(p []byte) []byte { return p }
+
+// pingOf: ping payloads from a few bytes up to the 125-byte limit, so that the
+// control handler's reply buffer comes from the unpooled path as well as from
+// the shared byte pool's 128 and 256 classes.
+func pingOf(s spec, i int) []byte {
+	p := []byte(fmt.Sprintf("ping-%d-%d.", s.id, i))
+	n := []int{len(p), 63, 100, 125, 59, 64}[(s.id+i)%6]
+	for k := 0; len(p) < n; k++ {
+		p = append(p, byte('a'+(s.id*7+i*3+k)%26))
+	}
+	return p
+}
+
+// reasonOf: short and long (pooled reply buffer) close reasons.
+func reasonOf(s spec) string {
+	r := fmt.Sprintf("bye-%d", s.id)
+	if s.id%2 == 1 {
+		for k := 0; len(r) < 60+s.id%60; k++ {
+			r += string(rune('A' + (s.id+k)%26))
+		}
+	}
+	return r
+}
 
 func sortLines(t *transcript) (c, s []string) {
 	for _, l := range t.lines {
